@@ -279,7 +279,8 @@ def has_coincident_points(M):
 
 # ------------------------------------------------------------------------------------------------
 def to_numpy_rows(rows, dtype=float):
-    return np.array([to_float(r) for r in rows], dtype=dtype) if rows else np.zeros((0,), dtype=dtype)
+    from .predfam import with_memory_layout
+    return with_memory_layout(np.array([to_float(r) for r in rows], dtype=dtype)) if rows else np.zeros((0,), dtype=dtype)
 
 
 def to_float(x):
@@ -300,7 +301,8 @@ def connectivity_array(rows):
 def to_fieldcompare(M, extra_point=None, extra_cell=None):
     """build fieldcompare.mesh.MeshFields through the public API"""
     from fieldcompare.mesh import Mesh, MeshFields, CellType
-    pts = np.array([[float(x) for x in p] for p in M["pts"]], dtype=float).reshape(len(M["pts"]), M["dim"])
+    from .predfam import with_memory_layout
+    pts = with_memory_layout(np.array([[float(x) for x in p] for p in M["pts"]], dtype=float).reshape(len(M["pts"]), M["dim"]))
     mesh = Mesh(pts, [(CellType.from_name(t), connectivity_array(rows)) for t, rows in M["blocks"]])
     pd = {}
     for name, rows in M["pf"].items():
